@@ -136,6 +136,13 @@ def run (shutdown : Bool) (base : Nat) : St â†’ Nat â†’ List Nat â†’ List Item â
 def runConn (shutdown : Bool) (base : Nat) (items : List Item) : List Ev :=
   run shutdown base {} 0 [] items
 
+/-- A connection accepted on a transparent TLS listener: `handle` receives the TLS connection from
+the first request on, and the session holds it. -/
+def tlsListenerState : St := { secure := false, connTls := true, sessTls := true }
+
+def runConnOn (s0 : St) (shutdown : Bool) (base : Nat) (items : List Item) : List Ev :=
+  run shutdown base s0 0 [] items
+
 /-! ### Projections used by the theorems and by the driver -/
 
 def servedCount : List Ev â†’ Nat
